@@ -14,7 +14,7 @@ for d in sorted(os.listdir(root)):
     first = '-' if fp is None else ('caught' if fp == 1 else '**missed**')
     now = 'caught' if det.get('caught') else ('**not decided**' if det.get('remark') else '**missed**')
     title = m.get('breaks', '')
-    title = re.sub(r'^C\d\d\s*[/-]?\s*(r(ound )?\d\s*[/,-]?\s*)?(change )?[abc]?\s*[-—:(]*\s*', '', title, flags=re.I).strip()
+    title = re.sub(r'^C\d\d\s*[/-]?\s*(r(ound )?\d+\s*[/,-]?\s*)?(change )?[abc]?\s*[-—:(]*\s*', '', title, flags=re.I).strip()
     sig = ', '.join(s.split(':', 1)[-1] for s in det.get('signatures', []))[:110]
     rows.setdefault(rnd, []).append(f"| {d} | {title[:150]} | {first} | {now} | `{sig}` |" if sig else f"| {d} | {title[:150]} | {first} | {now} | |")
 out = ['# Independently seeded changes: which check catches which', '',
